@@ -17,7 +17,10 @@ EXTENDS Integers, FiniteSets, TLC
 VARIABLE c
 
 Formats == {"raw", "qcow2", "vhd", "vhdx", "vmdk", "vdi", "qed", "iso", "gpt", "luks"}
-ZeroSigs == {"none", "qcow2", "qed", "vhd", "vhdx", "vmdk", "luks"}
+\* "vmdk_text": the content is a text-only VMDK descriptor carrying createType="..." (no KDMV
+\* header).  It is recognised when the first read covers it (finding F1 for shorter reads), needs
+\* the 64 bytes after which the sparse-header region is examined, and only while those bytes are text.
+ZeroSigs == {"none", "qcow2", "qed", "vhd", "vhdx", "vmdk", "luks", "vmdk_text"}
 Bgs == {"zero", "random", "text", "text_nonascii"}
 \* lengths on both sides of every inspector's decision point
 Lens == {0, 3, 4, 5, 6, 7, 8, 63, 64, 65, 511, 512, 513, 591, 592, 593,
@@ -26,9 +29,10 @@ Lens == {0, 3, 4, 5, 6, 7, 8, 63, 64, 65, 511, 512, 513, 591, 592, 593,
 \* is signature s physically inside a content of length n?
 Present(s, n) == CASE s = "qcow2" -> n >= 4 [] s = "qed" -> n >= 4 [] s = "vhd" -> n >= 8
                    [] s = "vhdx" -> n >= 8 [] s = "vmdk" -> n >= 4 [] s = "luks" -> n >= 6
+                   [] s = "vmdk_text" -> n >= 511
                    [] s = "vdi" -> n >= 68 [] s = "gpt" -> n >= 512 [] s = "iso" -> n >= 32774
                    [] OTHER -> FALSE
-Sig(f, x) == (x.zero = f) \/ (f = "vdi" /\ x.vdi) \/ (f = "gpt" /\ x.gpt) \/ (f = "iso" /\ x.iso)
+Sig(f, x) == (x.zero = f) \/ (f = "vmdk" /\ x.zero = "vmdk_text") \/ (f = "vdi" /\ x.vdi) \/ (f = "gpt" /\ x.gpt) \/ (f = "iso" /\ x.iso)
 
 Match(f, x) ==
   CASE f = "raw"   -> TRUE
@@ -36,7 +40,8 @@ Match(f, x) ==
     [] f = "qed"   -> x.zero = "qed" /\ x.n >= 512
     [] f = "vhd"   -> x.zero = "vhd" /\ x.n >= 8
     [] f = "vhdx"  -> x.zero = "vhdx" /\ x.n >= 8
-    [] f = "vmdk"  -> x.zero = "vmdk" /\ x.n >= 4
+    [] f = "vmdk"  -> \/ (x.zero = "vmdk" /\ x.n >= 4)
+                      \/ (x.zero = "vmdk_text" /\ x.n >= 511 /\ ~x.vdi /\ ~x.fat /\ ~(x.gpt /\ x.n >= 512))
     [] f = "luks"  -> x.zero = "luks" /\ x.n >= 6
     [] f = "vdi"   -> x.vdi /\ x.n >= 512
     [] f = "gpt"   -> x.gpt /\ ~x.fat /\ x.n >= 512
@@ -81,7 +86,7 @@ Spec == Init /\ [][Next]_c
 
 (* C03 on the decision function *)
 Exclusive == (Decide(c) \in Formats \ {"raw"}) =>
-                /\ Sig(Decide(c), c) /\ Present(Decide(c), c.n)
+                /\ Sig(Decide(c), c) /\ (Present(Decide(c), c.n) \/ c.zero = "vmdk_text")
                 /\ \A g \in Effective(c) \ {"raw", Decide(c)} : ~Match(g, c)
 MultiIsError == Cardinality(Matches(c)) >= 2 => Decide(c) = "ImageFormatError:multiple"
 RawOnlyAlone == /\ ("raw" \in FormatsOf(c) => FormatsOf(c) = {"raw"} /\ Matches(c) = {})
